@@ -120,6 +120,7 @@ type verbTables struct {
 	read    map[string]bool // verbs Request.Read accepts (returns nil for)
 	unit    map[string]bool // verbs whose successful parse carries a SetData unit
 	token   map[string]bool // verbs taking a request token
+	item    map[string]bool // verbs for which a successful parse leaves req.Item non-nil
 	proc    map[string]bool // verbs with a clause in Process producing a response
 	procAll map[string]bool
 	write   map[string]bool
@@ -159,7 +160,7 @@ func buildVerbTables(c *Ctx, rule string) *verbTables {
 	if rd == nil || pr == nil || wr == nil {
 		return nil
 	}
-	vt := &verbTables{read: map[string]bool{}, unit: map[string]bool{}, token: map[string]bool{}, proc: map[string]bool{}, procAll: map[string]bool{}, write: map[string]bool{}}
+	vt := &verbTables{item: map[string]bool{}, read: map[string]bool{}, unit: map[string]bool{}, token: map[string]bool{}, proc: map[string]bool{}, procAll: map[string]bool{}, write: map[string]bool{}}
 	// Read: enumerate paths per clause
 	b := newBal(c, rd, nil)
 	b.run(nil)
@@ -177,6 +178,9 @@ func buildVerbTables(c *Ctx, rule string) *verbTables {
 			}
 			if p.st.cnt["T"] > 0 {
 				vt.token[v] = true
+			}
+			if r := rd.Recv(); r != nil && p.st.facts[r.Name()+"#"+itoaI(int(r.Pos()))+".Item"] == vNonNil {
+				vt.item[v] = true
 			}
 		}
 	}
@@ -368,7 +372,17 @@ func c12r2(c *Ctx) {
 				want = -1
 			}
 			b := newBal(c, f, contracts)
-			b.run(func(st *bstate) { st.world["verb"] = v })
+			b.run(func(st *bstate) {
+				st.world["verb"] = v
+				if r := f.Recv(); r != nil {
+					k := r.Name() + "#" + itoaI(int(r.Pos())) + ".Item"
+					if vt.item[v] {
+						st.facts[k] = vNonNil
+					} else {
+						st.facts[k] = vNil
+					}
+				}
+			})
 			c.Paths += len(b.paths)
 			var badp *bpath
 			for i, p := range b.paths {
@@ -401,7 +415,17 @@ func c12r2(c *Ctx) {
 			contracts := map[string][]calleeOutcome{
 				"memcache.Request.Read": {
 					{name: "error", res: map[int]absVal{0: vNonNil}, delta: map[string]int{}},
-					{name: "ok", res: map[int]absVal{0: vNil}, delta: map[string]int{"S": unit}},
+					{name: "ok", res: map[int]absVal{0: vNil}, delta: map[string]int{"S": unit}, apply: func(st *bstate, call *ast.CallExpr, f *prog.Func) {
+						if se, ok := prog.Unparen(call.Fun).(*ast.SelectorExpr); ok {
+							if p := pathKey(f.Info(), se.X); p != "" {
+								if unit == 1 {
+									st.facts[p+".Item"] = vNonNil
+								} else {
+									st.facts[p+".Item"] = vNil
+								}
+							}
+						}
+					}},
 				},
 				"memcache.Request.Process": {
 					{name: "reply", res: map[int]absVal{0: vNonNil}, delta: map[string]int{"S": -unit}},
@@ -970,6 +994,7 @@ var contracted = map[string]bool{
 	"memcache.Request.Read": true, "memcache.Request.Process": true, "memcache.ServerConn.ServeOnce": true, "memcache.Response.CleanBuffer": true,
 	"memcache.Response.Read": true, // client side of the protocol (proxy use); outside the server path
 	"gobeansdb.StorageClient.Set": true, "gobeansdb.StorageClient.Get": true, "gobeansdb.StorageClient.getMeta": true,
+	"gobeansdb.StorageClient.Incr": true, "store.HStore.Incr": true,
 	"store.HStore.Set": true, "store.Bucket.checkAndSet": true, kAppendRecord: true, "store.dataChunk.flush": true,
 	"store.Bucket.get": true, "store.Bucket.incr": true, "store.readRecordAt": true, "store.dataChunk.GetRecordByOffsetInBuffer": true,
 	"store.dataChunk.GetRecordByOffset": true,
